@@ -303,7 +303,7 @@ def gen_program(rng, kind=None, mismatch=False):
                   "region": [[o0 * tc0, (o0 + nb0) * tc0], [o1 * tc1, (o1 + nb1) * tc1]],
                   "shape": [nb0 * tc0, nb1 * tc1], "chunks": [tc0, tc1]})
         if mismatch and rng.random() < 0.35:
-            # source chunked differently from the target (accepted by to_zarr; see KNOWN_FINDINGS C13)
+            # source chunked differently from the target: _store_array inserts a rechunk (fixed: ba97b91)
             p["chunks"] = [rng.randint(1, p["shape"][0]), rng.randint(1, p["shape"][1])]
     return p
 
